@@ -15,6 +15,7 @@ from .. import codec, tlc
 
 LEVEL = "exploration"
 MAXDEN = 10 ** 4
+LIMN = 10 ** 5  # keeps TLC's 32-bit cross-multiplications in range
 CHUNK = 256
 SLAB = 150
 CLAUSES = ["SatClosedForm", "SatNonNeg", "SatSumOne", "SatReproduce", "ChainRule", "NormRatio", "NormRowSum"]
@@ -25,9 +26,10 @@ def enc(x):
     try:
         if not np.isfinite(x):
             return [0, 0]
-        return codec.rat(float(x), MAXDEN)
+        r = codec.rat(float(x), MAXDEN)
     except codec.Inexact:
         return [0, 0]
+    return r if abs(r[0]) <= LIMN else [0, 0]  # huge numbers: no reference value is (they are bounded by ~30)
 
 
 def encmat(a):
@@ -90,7 +92,7 @@ def call(inp):
 def enumerate_part(ctx, part, consts, laws):
     c = dict(Part=part, NPh=set(), NTot=0, RhoVals=set(), KMax=0, Extra=set(), MaxDen=MAXDEN)
     c.update(consts)
-    m, cf = tlc.gen(ctx.work / f"enum_{part}", "MC_SaturationEnum", "SaturationEnum", c, invariants=["Emit"] + laws)
+    m, cf = tlc.gen(ctx.work / f"enum_{part}_{len(ctx.tlc_runs)}", "MC_SaturationEnum", "SaturationEnum", c, invariants=["Emit"] + laws)
     return ctx.tlc(m, cf, allow_violation=False).records
 
 
@@ -104,8 +106,11 @@ def build_cases(ctx):
     cases = []
     # saturations: one column per (k, rho); columns of equal n are interleaved over rho and cut into vectorised calls
     N = 4 if q else 6
-    rho = {1, 2, 5}
-    recs = enumerate_part(ctx, "sat", dict(NPh={2, 3, 4, 5}, NTot=N, RhoVals=rho), ["LawSat"])
+    if q:
+        recs = enumerate_part(ctx, "sat", dict(NPh={2, 3, 4, 5}, NTot=N, RhoVals={1, 2, 5}), ["LawSat"])
+    else:
+        recs = (enumerate_part(ctx, "sat", dict(NPh={2, 3, 4}, NTot=N, RhoVals={1, 2, 3, 5}), ["LawSat"])
+                + enumerate_part(ctx, "sat", dict(NPh={5}, NTot=N, RhoVals={1, 2, 5}), ["LawSat"]))
     bycount = {}
     for r in recs:
         for k in r["ks"]:
@@ -118,6 +123,8 @@ def build_cases(ctx):
     recs = enumerate_part(ctx, "chain", dict(NPh={2, 3} if q else {2, 3, 4}, NTot={1, 3} if q else {1, 3, 4},
                                              RhoVals={-1, 0, 2}, KMax=2, Extra={0, 2} if q else {0, 1, 2}),
                           ["LawChain"])
+    if not q:
+        recs += enumerate_part(ctx, "chain", dict(NPh={2, 3}, NTot={2, 5}, RhoVals={-2, 1, 3}, KMax=3, Extra={1}), ["LawChain"])
     by = {}
     for r in recs:
         for df in r["dfs"]:
@@ -162,7 +169,7 @@ def judge(ctx, cases, raws):
 
 def run(ctx):
     ctx.rule = ("TLC enumerates (a) all fraction vectors k/N on the simplex (N=4 quick / 6 thorough, 2-5 phases, vanishing and "
-                "saturated phases included) x all density tuples, (b) fraction vectors k/N' x integer gradients with 0-2 leading "
+                "saturated phases included) x all density tuples over {1,2,5} (thorough: {1,2,3,5} up to 4 phases), (b) fraction vectors k/N' x integer gradients with 0-2 leading "
                 "entries, (c) integer rows; every lattice point is one column of a vectorised call and one scalar call of the "
                 "real code; evaluations = columns x paths; a saturation column is non-trivial when >= 2 phases are present")
     ctx.assumptions = ["doubles are converted with codec.rat(maxden=1e4, tol 1e-9): every reference value has a denominator "
